@@ -9,6 +9,7 @@ for name in $names; do
   d=/verif/seeded/$name
   pf=$d/patch.diff; [ -f $d/patch.current.diff ] && pf=$d/patch.current.diff   # same change, rebased onto later fixes
   prop=$(python3 -c "import json;print(json.load(open('$d/meta.json'))['property'])" 2>/dev/null || echo ${name:0:3})
+  if [ -f $d/NEUTRALISED.txt ]; then echo "$name: neutralised by a later fix (see NEUTRALISED.txt) - skipped"; continue; fi
   if [ -n "$(git -C /repo status --short | grep -v '^??')" ]; then echo "/repo not clean"; exit 2; fi
   if ! git -C /repo apply $pf 2>/dev/null; then
     # context moved by later fixes: three-way merge against the blobs the patch names
